@@ -79,6 +79,10 @@ def oracle(case) -> Info:
         if valid and fields and (len(fields["destination_address"]) > 1 or len(fields["source_address"]) > 1):
             interesting = True
             classes.append("valid-multi-octet-address")
+            if len(fields["destination_address"]) > 4 or len(fields["source_address"]) > 4:
+                classes.append("valid-address>4-octets")
+        if valid and fields and fields["payload"] not in (None, "ambiguous") and fcs16_octets(b[: 2 + len(fields["destination_address"]) + len(fields["source_address"]) + 1]) != fields["hcs"]:
+            classes.append("valid-frame-with-wrong-HCS")
     ok, info = find_embedding(stream, octs, stuffing)
     if not ok:
         fail(
@@ -102,7 +106,7 @@ def oracle(case) -> Info:
 def token_st(draw):
     kind = draw(st.sampled_from(["good", "good", "defect", "defect", "defect", "noise"]))
     if kind == "good":
-        spec = draw(G.frame_spec_st(big=draw(st.integers(0, 9)) == 9, header_only_weight=2))
+        spec = draw(G.frame_spec_st(big=draw(st.integers(0, 9)) == 9, header_only_weight=2, long_addr=True))
         octs = G.frame_from_spec(spec)
     elif kind == "defect":
         _k, octs = draw(G.defect_frame_st())
@@ -130,8 +134,8 @@ def build() -> Check:
         pid="C01",
         level="exploration",
         rule=(
-            "Streams = optional noise + 1..5 tokens (well-formed frame | frame with one injected defect: bit flip, truncation at any "
-            "offset incl. right after the HCS, extra octets, wrong length field with recomputed HCS/FCS, dropped octet, swapped FCS | raw "
+            "Streams = optional noise + 1..5 tokens (well-formed frame with 1..8-octet addresses | frame with one injected defect: bit flip, truncation at any "
+            "offset incl. right after the HCS, extra octets, wrong length field with recomputed HCS/FCS, wrong HCS with recomputed FCS (still valid by C01's definition), dropped octet, swapped FCS | raw "
             "noise biased to 7E/7D/5E/5D/A0) separated by 0..3 flags, each token stuffed or not independently of the reader mode, x a "
             "splitting (none, bytewise, single, multi, fixed size, tail-bytewise) x 4 configurations. Non-trivial = at least one frame "
             "returned AND (a returned frame with good FCS but wrong length or right length but bad FCS, or a valid frame with a "
